@@ -412,6 +412,21 @@ def run(ctx):
                         be = True
                     if is_call_to(B.blocks[b]['t'], 'from_le_bytes') or is_call_to(B.blocks[b]['t'], 'from_ne_bytes'):
                         be = 'wrong'
+                if not evs:
+                    # the arm only picks a value of another enum (a "prefix kind") that a later match turns into the read / write:
+                    # the region of this mode is then the arm of that later match for the variant built here
+                    lits = [st['rv'] for b in sorted(blocks) for st in B.blocks[b]['s'] if st['k'] == '=' and st['rv']['k'] == 'agg' and st['rv'].get('ak') == 'adt' and 'vi' in st['rv']
+                            and str(st['rv'].get('adt', '')).startswith('edp_client::')]
+                    if len(lits) == 1:
+                        for sb2 in sorted(B.live_blocks()):
+                            sd2 = B.switch_on_discr(sb2)
+                            if sd2 and sd2[1].replace('&', '') == lits[0]['adt'] and sb2 not in blocks:
+                                t2 = {v: b for v, b in sd2[2]}
+                                starts2 = sorted(set(t2.values()) | {sd2[3]})
+                                ex2 = exclusive_blocks(B, starts2)
+                                for b in sorted(ex2.get(t2.get(lits[0]['vi'], sd2[3]), ())):
+                                    evs += io_events(B, b, detail=False)
+                                break
                 per[vn] = ('io', tuple(e[1:2] + ((e[2],) if e[1] == 'bytes' else ()) for e in evs), be)
         tables[name] = per
     want = {'Handshake': 2, 'Distribution': 4}
